@@ -11,6 +11,9 @@ changed by whoever received it.  Two shapes are decided here, on the syntax tree
    back: reported when a parameter-rooted access path the stored value is computed from does not occur in the key expression (`cls.args[0]` is
    not covered by the key `cls.args[0].prim`; a whole `content` is not covered by `content['kind']`).
 
+ * instance-level memos (`if self._m is None: self._m = <value>`): reported when a method of the class other than the constructor assigns an
+   attribute the remembered value was computed from without resetting the memo.
+
 A cache that is keyed completely and hands out immutable values is silent (it does not change behaviour).
 """
 from __future__ import annotations
@@ -203,6 +206,53 @@ def memory_findings(repo: Repo, functions: Iterable[FuncInfo]) -> List[Tuple[Fun
     return out
 
 
+def _self_attrs(e: ast.AST) -> Set[str]:
+    return {n.attr for n in ast.walk(e) if isinstance(n, ast.Attribute) and isinstance(n.value, ast.Name) and n.value.id == 'self'}
+
+
+def memo_findings(repo: Repo, functions: Iterable[FuncInfo]) -> List[Tuple[FuncInfo, str, str]]:
+    """instance-level memo: a method stores `self.M = <value>` under a test of `self.M` (is None / falsy / hasattr) and answers from it afterwards.
+    The remembered value is computed from other attributes of the same object; reported when a method of the class (other than the constructor)
+    assigns one of those attributes without also resetting `self.M` - the object then keeps answering from what it was before the assignment."""
+    out: List[Tuple[FuncInfo, str, str]] = []
+    for fi in functions:
+        if fi.cls is None or fi.name == '__init__':
+            continue
+        for n in ast.walk(fi.node):
+            if not isinstance(n, ast.If):
+                continue
+            tested = _self_attrs(n.test) | {a.args[1].value for a in ast.walk(n.test) if isinstance(a, ast.Call) and dotted(a.func) == 'hasattr' and len(a.args) == 2
+                                            and isinstance(a.args[1], ast.Constant) and isinstance(a.args[1].value, str)}
+            for st in n.body:
+                if not (isinstance(st, (ast.Assign, ast.AnnAssign)) and st.value is not None):
+                    continue
+                tg = st.targets[0] if isinstance(st, ast.Assign) else st.target
+                if not (isinstance(tg, ast.Attribute) and isinstance(tg.value, ast.Name) and tg.value.id == 'self' and tg.attr in tested):
+                    continue
+                memo = tg.attr
+                reads = _self_attrs(_expand_locals(fi, st.value, {'self'})) - {memo}
+                if not reads:
+                    continue
+                for other in fi.cls.methods.values():
+                    if other.name == '__init__' or other is fi:
+                        continue
+                    written, resets = set(), False
+                    for m in ast.walk(other.node):
+                        tgs = m.targets if isinstance(m, ast.Assign) else [m.target] if isinstance(m, (ast.AugAssign, ast.AnnAssign)) else []
+                        for t in tgs:
+                            for t1 in (t.elts if isinstance(t, (ast.Tuple, ast.List)) else [t]):
+                                if isinstance(t1, ast.Attribute) and isinstance(t1.value, ast.Name) and t1.value.id == 'self':
+                                    if t1.attr == memo:
+                                        resets = True
+                                    elif t1.attr in reads:
+                                        written.add(t1.attr)
+                    if written and not resets:
+                        out.append((fi, 'memo-not-invalidated',
+                                    f'`self.{memo}` remembers `{norm(st.value)[:70]}`, computed from self.{sorted(written)[0]}; {fi.cls.name}.{other.name} assigns '
+                                    f'self.{sorted(written)[0]} without resetting self.{memo}: the object keeps answering from its earlier state'))
+    return out
+
+
 def functions_of(repo: Repo, prefixes: Iterable[str]) -> List[FuncInfo]:
     seen: Dict[str, FuncInfo] = {}
     for p in prefixes:
@@ -215,7 +265,7 @@ def check_memory(repo: Repo, chk: Any, prefixes: Iterable[str], what_breaks: str
     """one obligation per function that keeps a memory; one summary obligation for the scope (so that the count is visible in the evidence)"""
     fns = functions_of(repo, prefixes)
     chk.minimum('functions examined for memory across calls', len(fns), minimum)
-    bad = memory_findings(repo, fns)
+    bad = memory_findings(repo, fns) + memo_findings(repo, fns)
     for fi, kind, why in bad:
         chk.ob('R-FLOW', fi.qualname, False, f'no memory across calls ({kind})', fi.loc, {'why': why},
                what=f'{fi.name}: {why} - {what_breaks}')
